@@ -188,6 +188,8 @@ def hostile_cfg(rng):
         cfg["keep_going"] = True
     elif r < 0.25:
         cfg["clean"] = False
+    if rng.random() < 0.3:
+        cfg["thread_delay"] = {"p": rng.choice([0.3, 1.0]), "max": 0.02, "seed": rng.randrange(1 << 30)}
     return cfg
 
 
